@@ -83,6 +83,11 @@ impl Deserialize for DRepEnum {
                     .into())
                 }
             };
+            let items = match drep {
+                DRepEnum::KeyHash(_) | DRepEnum::ScriptHash(_) => 2,
+                DRepEnum::AlwaysAbstain | DRepEnum::AlwaysNoConfidence => 1,
+            };
+            crate::serialization::utils::check_len(len, items, "[id, hash] or [id]")?;
             if let cbor_event::Len::Indefinite = len {
                 if raw.special()? != CBORSpecial::Break {
                     return Err(DeserializeFailure::EndingBreakMissing.into());
